@@ -215,6 +215,11 @@ func checkText(fail func(format string, args ...any), text string) (accepted boo
 	if err == nil && err2 != nil {
 		fail("appending a valid route add made an accepted text invalid: %v", err2)
 	}
+	if err != nil && err2 == nil {
+		// the verdict on a line does not depend on what was seen before: a text with an unusable line
+		// stays unusable when it is delivered again with another line added
+		fail("a text that was rejected (%v) is accepted when it is delivered again with a valid route add appended\ntext:\n%s", err, hx.Trunc(text, 4000))
+	}
 	return
 }
 
